@@ -46,10 +46,10 @@ from bisturi.packet import PacketError
         if self.generate_for_pack:
             pack_code = '''
 def pack_impl(pkt, fragments, **k):
-%(sync_descriptors_code)s
    k['innermost-pkt-pos'] = fragments.current_offset
    fields = pkt.get_fields()
    try:
+%(sync_descriptors_code)s
 %(blocks_of_code)s
    except PacketError as e:
       e.add_parent_field_and_packet(fragments.current_offset, name, pkt.__class__.__name__)
@@ -114,17 +114,29 @@ def unpack_impl(pkt, raw, offset, **k):
 
     def generate_unrolled_code_for_descriptor_sync(self, sync_for_pack):
         if sync_for_pack:
+            # these run inside the 'try' of pack_impl: a failing hook is
+            # reported as a failure of the field it belongs to
             sync_methods = self.pkt_class.get_sync_before_pack_methods()
-            setup_code = "   sync_methods = pkt.get_sync_before_pack_methods()\n"
+            pad = "      "
+            setup_code = pad + "sync_methods = pkt.get_sync_before_pack_methods()\n"
         else:
             sync_methods = self.pkt_class.get_sync_after_unpack_methods()
-            setup_code = "   sync_methods = pkt.get_sync_after_unpack_methods()\n"
+            pad = "   "
+            setup_code = pad + "sync_methods = pkt.get_sync_after_unpack_methods()\n"
 
         if not sync_methods:
             return ""
 
-        sync_calls = '\n'.join('   sync_methods[%i](pkt)' % i \
-                                            for i in range(len(sync_methods)))
+        def call(i, sync):
+            owner = getattr(
+                getattr(sync, '__self__', None), 'real_field_name', None
+            )
+            naming = (pad + "name = %r\n" % owner) if sync_for_pack else ""
+            return naming + pad + 'sync_methods[%i](pkt)' % i
+
+        sync_calls = '\n'.join(
+            call(i, sync) for i, sync in enumerate(sync_methods)
+        )
         return setup_code + sync_calls
 
     def generate_code_for_fixed_fields(self, fields):
